@@ -12,8 +12,8 @@
 //! the `zcash_script` interpreter for every transparent input, own value sums.
 //!
 //! Sub-commands (one JSON object on the last stdout line):
-//!   run <cases.ndjson> <tier> <full_samples>     executes all cases
-//!   probe                                        prints the behaviour on a few requests outside the domain
+//!   run <cases.ndjson> <real_proof_samples> [<vtable.ndjson>]   executes all cases
+//!   one <case.ndjson> <idx>                      one case at its original index (replay), full build always
 #![allow(clippy::too_many_arguments, clippy::type_complexity)]
 
 use std::collections::{BTreeMap, BTreeSet};
@@ -1370,7 +1370,7 @@ struct Opts {
 
 /// Cases reported so far (all threads): once a violation is established the rest of the run is cut short.
 static MISMATCHES: std::sync::atomic::AtomicUsize = std::sync::atomic::AtomicUsize::new(0);
-const MISMATCH_CAP: usize = 24;
+const MISMATCH_CAP: usize = 400;
 /// Requests with Orchard/Ironwood actions that the specification refuses are run through the full
 /// build (a refusal costs nothing); if the code does *not* refuse, real proofs get made - a few of
 /// those establish the violation, after that such requests are left to the PCZT path.
@@ -1535,15 +1535,6 @@ where
     };
     if q["regime"] != "nu63" {
         return vec!["deferred: a builder with deferred anchors was created before NU6.3".to_string()];
-    }
-    // A required-but-unused bundle is charged by get_fee but not emitted by this builder (reported
-    // separately, see notes/c14-report.md); the rule is compared on the other configurations.
-    let required_unused = |pad: &J, used: bool| pad.as_str().unwrap().starts_with("required") && !used;
-    if required_unused(&q["opad"], !(m.o_spends.is_empty() && m.o_outs.is_empty() && m.o_chg.is_empty()))
-        || required_unused(&q["ipad"], !(m.i_spends.is_empty() && m.i_outs.is_empty()))
-    {
-        st.inc("deferred:skipped_required_unused");
-        return errs;
     }
     let added = guarded(|| -> Result<(), BErr<FR::Error>> {
         for (n, _) in &m.o_spends {
@@ -1800,6 +1791,7 @@ fn main() {
                     s.spawn(move || {
                         let mut st = Stats::default();
                         let mut bad = vec![];
+                        let mut seen: BTreeMap<String, usize> = BTreeMap::new();
                         for (idx, case) in cases.iter().enumerate().filter(|(i, _)| i % threads == t) {
                             if MISMATCHES.load(std::sync::atomic::Ordering::Relaxed) >= MISMATCH_CAP {
                                 st.inc("skipped_after_mismatch_cap");
@@ -1809,8 +1801,12 @@ fn main() {
                             if !errs.is_empty() {
                                 MISMATCHES.fetch_add(1, std::sync::atomic::Ordering::Relaxed);
                                 st.inc("mismatch");
-                                if bad.len() < 10 {
-                                    bad.push(json!({"kind": "case", "idx": idx, "case": case, "errors": errs}));
+                                // keep at most two reports per kind of disagreement
+                                let key: String = format!("{}|{}", case["q"]["regime"], errs[0]).chars().filter(|c| !c.is_ascii_digit()).take(70).collect();
+                                let n = seen.entry(key.clone()).or_insert(0usize);
+                                *n += 1;
+                                if *n <= 2 && bad.len() < 40 {
+                                    bad.push(json!({"kind": "case", "idx": idx, "case": case, "errors": errs, "key": key}));
                                 }
                             }
                         }
